@@ -131,7 +131,41 @@ def handleSrv (allScripted : Bool) (budget : Option Nat) (sm steps perm peer : S
   let r := match budget with
     | none => serverSession mechs evs
     | some b => serverSessionW mechs b evs
-  pure s!"{showBool r.authn} {r.err.toString} {joinList (r.sent.map showSSent)} {joinList (r.perms.map showPerm)}"
+  pure s!"{showBool r.authn} {r.err.toString} {joinList (r.sent.map showSSent)} {joinList (r.perms.map showPerm)} adv:{joinList ((advertised mechs).map encName)}"
+
+def parseCred (s : String) : Option (Bytes × Bytes) :=
+  match s.splitOn "/" with
+  | [u, p] => do
+    let u ← hexDecode u; let p ← hexDecode p
+    pure (u, p)
+  | _ => none
+
+def showSRes (r : SRes) : String :=
+  s!"{showBool r.authn} {r.err.toString} {joinList (r.sent.map showSSent)} {joinList (r.perms.map showPerm)}"
+
+/-- several receiving sessions on one feature value, moved by the given schedule (then run to
+their end): each one's result -/
+def handleConcS (sched accept : String) (creds : List String) : Option String := do
+  let sch ← mapM? (fun x : String => x.toNat?) (splitList sched)
+  let acc ← mapM? parseCred (splitList accept)
+  let cs ← mapM? parseCred creds
+  let perm : Bytes → Bytes → Bytes → Bool := fun u p _ => acc.any fun a => a.1 == u && a.2 == p
+  let cfg := [("PLAIN", plainServer perm)]
+  let scripts := cs.map fun c => [SEv.auth "PLAIN" (if c.1.isEmpty && c.2.isEmpty then .valid [0, 0] else .valid (0 :: c.1 ++ 0 :: c.2))]
+  let n := scripts.length
+  -- the harness's schedule, then every session to its end
+  let fin := (List.range n).flatMap fun i => [i, i, i]
+  let ss := runSched cfg (scripts.map SSess.start) (sch ++ fin)
+  let rs ← mapM? (fun s => match s with | SSess.finished r => some (showSRes r) | _ => none) ss
+  pure (" ; ".intercalate rs)
+
+def handleConcC (users : List String) : Option String := do
+  let us ← mapM? (fun x => hexDecode x) users
+  let rs := us.map fun u =>
+    let mech : Mech := fun _ => { kind := .done, resp := 0 :: u ++ 0 :: "secret".toUTF8.toList }
+    let r := clientNeg [("PLAIN", mech)] ["PLAIN"] [.success .empty]
+    s!"{showBool r.authn} {r.err.toString} {joinList (r.sent.map showCSent)}"
+  pure (" ; ".intercalate rs)
 
 def handle (args : List String) : Option String :=
   match args with
@@ -140,6 +174,8 @@ def handle (args : List String) : Option String :=
   | ["clie", budget, cancel, cm, adv, steps, peer] => handleCli budget cancel cm adv steps peer
   | ["srv", sm, steps, perm, peer] => handleSrv false none sm steps perm peer
   | ["srvs", sm, steps, perm, peer] => handleSrv true none sm steps perm peer
+  | "concs" :: sched :: accept :: creds => handleConcS sched accept creds
+  | "concc" :: _sched :: users => handleConcC users
   | ["srvw", n, sm, steps, perm, peer] => do
     let budget ← n.toNat?
     handleSrv false (some budget) sm steps perm peer
